@@ -287,7 +287,8 @@ func domainFor(c *contractDef, m *abi.Method, ai int, env *stateEnv, actorIdx in
 		if name == "expirationTime" {
 			return []val{v("ok", genesisT+365*day), v("0", int64(0)), v("max", int64(math.MaxInt64)), v("past", genesisT+1), v("-1", int64(-1)), v("1", int64(1))}
 		}
-		return []val{v("ok", constants.StakeTimeMinSec), v("0", int64(0)), v("max", int64(math.MaxInt64)), v("maxvalid", constants.StakeTimeMaxSec), v("-1", int64(-1)),
+		return []val{v("ok", constants.StakeTimeMinSec), v("maxvalid+unit", constants.StakeTimeMaxSec+constants.StakeTimeUnitSec), v("max", int64(math.MaxInt64)), v("0", int64(0)),
+			v("maxvalid", constants.StakeTimeMaxSec), v("-1", int64(-1)),
 			v("1", int64(1)), v("not-multiple", constants.StakeTimeMinSec+60), v("min", int64(math.MinInt64))}
 	case "uint256":
 		switch name {
@@ -449,7 +450,7 @@ func requiredAmount(c *contractDef, method string) (*big.Int, types.ZenonTokenSt
 	case "pillar.DepositQsr", "sentinel.DepositQsr":
 		return big8(10), qsr
 	case "bridge.WrapToken":
-		return big.NewInt(100000), znn
+		return big.NewInt(500), znn
 	case "liquidity.LiquidityStake":
 		return big.NewInt(5000), znn
 	}
@@ -461,4 +462,13 @@ type amountSel struct {
 }
 
 var amountSels = []string{"required", "zero", "all", "one"}
-var tokenSels = []string{"znn", "qsr", "custom", "none"}
+var tokenSels = []string{"znn", "qsr", "custom", "none", "locked", "bridge-owned"}
+
+// tokenSelsFor: the token selectors of a method, most relevant first (the quick tier takes the first two).
+func tokenSelsFor(c *contractDef, method string) []string {
+	if c.Name == "bridge" && method == "WrapToken" {
+		// tokens with a pair on the base state's network: ZNN (not owned), the foreign token flagged Owned, the bridge's own
+		return []string{"znn", "locked", "bridge-owned", "qsr", "custom", "none"}
+	}
+	return tokenSels
+}
